@@ -115,7 +115,10 @@ Example C11_example :
   snd (run c [ETick plain; EChange; ETick (mkTF false false true None)]) = mkP None 1 Broken true true /\
   snd (run c [ETick plain; EChange; ETick (mkTF true false false (Some 3%nat)); EStale; ESetOk false; ETick plain])
     = mkP None 1 Down true false /\
-  snd (run c [ETick plain; EChange; ETick (mkTF false true false None)]) = mkP (Some 1) 1 Up false true.
+  snd (run c [ETick plain; EChange; ETick (mkTF false true false None)]) = mkP (Some 1) 1 Up false true /\
+  (* nothing cached at all and the scan finds objects: reloaded at once, not broken *)
+  let c0 := mkCfg 1 12 (fun v t => if N.eqb v 0 then 0%nat else 3%nat) [0; 5; 7]%nat [0; 1; 4; 5; 6; 7]%nat 4 6 false in
+  snd (run c0 [ETick plain; EChange; ETick (mkTF false false true None)]) = mkP (Some 1) 1 Up false true.
 Proof. split; [exact thm_late_identity_witness|]. vm_compute. repeat split. Qed.
 
 Print Assumptions C11_publish_atomic.
